@@ -500,6 +500,21 @@ def run_C02(ck):
     if mp: streams.append(mp); ck.count('chunk_with_packed_size_0xFFFF')
     sweep = gen_l2_props_sweep(rng, 40 if ck.tier == 'quick' else 300)
     streams += sweep; ck.count('props_sweep_streams', len(sweep))
+    # several hundred chunks in one stream (any per-stream chunk counter or table that grows per chunk)
+    many = []
+    pbm = ProgBuilder(None)
+    for k in range(300 if ck.tier == 'quick' else 700):
+        if k % 7 == 3:
+            d_ = rng.bytes(rng.range(1, 5)); many.append('U2:%s' % hx(d_)); pbm.n += len(d_)
+        else:
+            cls_ = 3 if k == 0 else rng.choice([0, 0, 1])
+            if cls_ >= 1: pbm.reps = [1, 1, 1, 1]          # a state reset zeroes the repeat distances: build the program accordingly
+            pbm.syms = []
+            for _ in range(rng.range(1, 3)): pbm.random_sym(rng, 2)
+            many.append('Z%d:%s:0:%s' % (cls_, '3,0,2' if k == 0 else '-', pbm.text()))
+    e_ = ref_encode(['ref_lzma2 chunks=' + '/'.join(many)])[0]
+    if e_ is not None:
+        streams.append({'bytes': e_[0], 'out': e_[1], 'stats': {'many_chunks': len(many)}, 'big': None, 'ref': 'stream of %d tiny chunks' % len(many)})
     # tiny continuation chunks: after a chunk that trained the model, a chunk of one or two cheap symbols has a payload of exactly
     # the five coder init bytes (compressed-size field 4) - the smallest legal compressed chunk
     treqs = []
@@ -597,6 +612,15 @@ def run_C03(ck):
             exp = open('/repo/tests/files/' + name[:-3], 'rb').read()
             cases.append({'line': 'xz_dec in=%s' % hx(raw), 'meta': {'file': name}, 'oracle': exact_oracle(exp), 'nontrivial': True})
             ck.count('repo_files')
+    # a file with 130-300 blocks: the index's record count needs a two-byte multibyte integer, and whatever grows per block grows
+    tiny_pool = [p for p in pool if len(p['bytes']) < 40] or pool[:3]
+    for nb_ in ([130] if ck.tier == 'quick' else [127, 128, 129, 300]):
+        blks = [XzBlock(b'\x00', b'', with_unpacked=rng.chance(1, 2)) if rng.chance(1, 3) else
+                (lambda s_: XzBlock(s_['bytes'], s_['out'], with_packed=rng.chance(1, 3), with_unpacked=rng.chance(1, 3)))(rng.choice(tiny_pool)) for _ in range(nb_)]
+        ck_ = rng.choice([0, 1, 4])
+        cases.append({'line': 'xz_dec in=%s rd=%s' % (hx(xz_file(blks, ck_)), rng.choice(['all', '64'])), 'meta': {'nblocks': nb_, 'check': ck_},
+                      'oracle': exact_oracle(b''.join(b_.content for b_ in blks)), 'nontrivial': True})
+        ck.count('many_blocks_%d' % nb_)
     # several LZMA2 filters in one block are decoded as a chain (leniency of lzma-rs, reproduced by the model)
     def lzma2_raw(b):
         out, first = b'', True
